@@ -3,61 +3,60 @@
    Integers are converted to and from the extracted inductive [z] bit by bit; numbers
    that do not fit an OCaml int are handled decimal-digit-wise with the extracted
    Z operations. *)
-open Model
 
-let rec pos_of_int (n : int) : positive =
-  if n = 1 then XH
-  else if n land 1 = 0 then XO (pos_of_int (n lsr 1))
-  else XI (pos_of_int (n lsr 1))
+let rec pos_of_int (n : int) : Model.positive =
+  if n = 1 then Model.XH
+  else if n land 1 = 0 then Model.XO (pos_of_int (n lsr 1))
+  else Model.XI (pos_of_int (n lsr 1))
 
-let z_of_int (n : int) : z =
-  if n = 0 then Z0 else if n > 0 then Zpos (pos_of_int n) else Zneg (pos_of_int (-n))
+let z_of_int (n : int) : Model.z =
+  if n = 0 then Model.Z0 else if n > 0 then Model.Zpos (pos_of_int n) else Model.Zneg (pos_of_int (-n))
 
 let z10 = z_of_int 10
 
-let z_of_string (s : string) : z =
+let z_of_string (s : string) : Model.z =
   let neg = String.length s > 0 && s.[0] = '-' in
   let start = if neg then 1 else 0 in
   let len = String.length s - start in
   let v =
     if len <= 18 then z_of_int (int_of_string (String.sub s start len))
     else begin
-      let acc = ref Z0 in
+      let acc = ref Model.Z0 in
       for i = start to String.length s - 1 do
-        acc := Z.add (Z.mul !acc z10) (z_of_int (Char.code s.[i] - 48))
+        acc := Model.Z.add (Model.Z.mul !acc z10) (z_of_int (Char.code s.[i] - 48))
       done; !acc
     end in
-  if neg then Z.opp v else v
+  if neg then Model.Z.opp v else v
 
 (* positive -> int when it fits in 61 bits *)
-let rec pos_to_int (p : positive) (depth : int) : int option =
+let rec pos_to_int (p : Model.positive) (depth : int) : int option =
   if depth > 60 then None else
   match p with
-  | XH -> Some 1
-  | XO q -> (match pos_to_int q (depth + 1) with Some v -> Some (2 * v) | None -> None)
-  | XI q -> (match pos_to_int q (depth + 1) with Some v -> Some (2 * v + 1) | None -> None)
+  | Model.XH -> Some 1
+  | Model.XO q -> (match pos_to_int q (depth + 1) with Some v -> Some (2 * v) | None -> None)
+  | Model.XI q -> (match pos_to_int q (depth + 1) with Some v -> Some (2 * v + 1) | None -> None)
 
-let rec big_pos_to_string (v : z) : string =
+let rec big_pos_to_string (v : Model.z) : string =
   (* v > 0, slow path *)
   match v with
-  | Z0 -> ""
+  | Model.Z0 -> ""
   | _ ->
-    let q = Z.div v z10 and r = Z.modulo v z10 in
-    let d = (match r with Z0 -> 0 | Zpos p -> (match pos_to_int p 0 with Some k -> k | None -> 0) | Zneg _ -> 0) in
+    let q = Model.Z.div v z10 and r = Model.Z.modulo v z10 in
+    let d = (match r with Model.Z0 -> 0 | Model.Zpos p -> (match pos_to_int p 0 with Some k -> k | None -> 0) | Model.Zneg _ -> 0) in
     big_pos_to_string q ^ string_of_int d
 
-let string_of_z (v : z) : string =
+let string_of_z (v : Model.z) : string =
   match v with
-  | Z0 -> "0"
-  | Zpos p -> (match pos_to_int p 0 with Some k -> string_of_int k | None -> big_pos_to_string v)
-  | Zneg p -> (match pos_to_int p 0 with Some k -> string_of_int (-k) | None -> "-" ^ big_pos_to_string (Zpos p))
+  | Model.Z0 -> "0"
+  | Model.Zpos p -> (match pos_to_int p 0 with Some k -> string_of_int k | None -> big_pos_to_string v)
+  | Model.Zneg p -> (match pos_to_int p 0 with Some k -> string_of_int (-k) | None -> "-" ^ big_pos_to_string (Model.Zpos p))
 
 (* parser *)
-let parse (s : string) : sx =
+let parse (s : string) : Model.sx =
   let n = String.length s in
   let pos = ref 0 in
   let rec skip () = if !pos < n && (s.[!pos] = ' ' || s.[!pos] = '\t' || s.[!pos] = '\r') then (incr pos; skip ()) in
-  let rec item () : sx =
+  let rec item () : Model.sx =
     skip ();
     if !pos >= n then failwith "eof"
     else if s.[!pos] = '(' then begin
@@ -69,19 +68,19 @@ let parse (s : string) : sx =
         else if s.[!pos] = ')' then incr pos
         else (items := item () :: !items; loop ()) in
       loop ();
-      Lx (List.rev !items)
+      Model.Lx (List.rev !items)
     end else begin
       let st = !pos in
       while !pos < n && (s.[!pos] = '-' || (s.[!pos] >= '0' && s.[!pos] <= '9')) do incr pos done;
       if !pos = st then failwith ("bad char at " ^ string_of_int st);
-      Zx (z_of_string (String.sub s st (!pos - st)))
+      Model.Zx (z_of_string (String.sub s st (!pos - st)))
     end in
   item ()
 
-let rec print (b : Buffer.t) (x : sx) : unit =
+let rec print (b : Buffer.t) (x : Model.sx) : unit =
   match x with
-  | Zx v -> Buffer.add_string b (string_of_z v)
-  | Lx l ->
+  | Model.Zx v -> Buffer.add_string b (string_of_z v)
+  | Model.Lx l ->
     Buffer.add_char b '(';
     List.iteri (fun i y -> if i > 0 then Buffer.add_char b ' '; print b y) l;
     Buffer.add_char b ')'
@@ -92,7 +91,7 @@ let () =
       let line = input_line stdin in
       if String.length line > 0 then begin
         let b = Buffer.create 4096 in
-        (try print b (dispatch (parse line))
+        (try print b (Model.dispatch (parse line))
          with Failure m -> (Buffer.clear b; Buffer.add_string b ("!error " ^ m))
             | Stack_overflow -> (Buffer.clear b; Buffer.add_string b "!error stack-overflow"));
         print_string (Buffer.contents b); print_newline ()
